@@ -46,6 +46,7 @@ class Profile:
         self.max_join_rows = kw.get("max_join_rows", 60)
         self.use_uid = kw.get("use_uid", True)
         self.self_join_p = kw.get("self_join_p", 0.15)
+        self.pair_keys_p = kw.get("pair_keys_p", 0.0)  # probability that a join uses differently named key columns
 
 
 class St:
@@ -543,6 +544,21 @@ class Gen:
         est = st.nrows() * max(1, right.nrows())
         if est > self.p.max_join_rows * 4:
             return None
+        if on and rng.random() < self.p.pair_keys_p:
+            # differently named keys: the right side's first key column gets another name
+            k = on[0]
+            nk = self.newcol(right, "k")
+            while nk in st.frame.columns:
+                nk = self.newcol(right, "k")
+            stp = {"op": "rename_columns", "map": [[nk, k]]}
+            fr = self.apply(right, stp)
+            node = dict(stp)
+            node["src"] = right.node
+            kinds = dict(right.kinds)
+            kinds[nk] = kinds.pop(k)
+            right = St(node, fr, kinds)
+            on = [[k, nk]] + [[x, x] for x in on[1:]]
+            self.cnt("paired_keys_join")
         step = {"op": "natural_join", "on": on, "jointype": jt}
         return step, right
 
